@@ -34,7 +34,7 @@ generated_code_names_set = {
     'IntString', 'FloatString', 'BooleanString', 'IsoDateString', 'IsoTimeString', 'IsoDatetimeString',
 }
 blacklist_words = frozenset(keywords_set | builtins_set | other_common_names_set | generated_code_names_set)
-ones = ['', 'one', 'two', 'three', 'four', 'five', 'six', 'seven', 'eight', 'nine']
+ones = ['zero', 'one', 'two', 'three', 'four', 'five', 'six', 'seven', 'eight', 'nine']
 
 
 def template(pattern: str, indent: str = INDENT) -> Template:
